@@ -6,7 +6,6 @@ import (
 	"io"
 	"log"
 
-	"github.com/dim13/cobs"
 	"github.com/simpleiot/simpleiot/test"
 )
 
@@ -96,6 +95,40 @@ func cobsDecodeInplace(b []byte) (int, error) {
 	return iOut, nil
 }
 
+// cobsEncode encodes p as a null-terminated COBS frame. (cobs.Encode of
+// github.com/dim13/cobs does not emit the empty block that has to follow a
+// full block of 254 non-zero bytes when the next data byte is zero, so that
+// zero was lost on decoding.)
+func cobsEncode(p []byte) []byte {
+	ret := make([]byte, 1, len(p)+len(p)/254+3)
+	// index of the code byte of the block being built, and its value
+	codeIdx := 0
+	code := byte(1)
+
+	for i, b := range p {
+		if b != 0 {
+			ret = append(ret, b)
+			code++
+		}
+
+		if b == 0 || code == 0xff {
+			// block is complete, start the next one
+			ret[codeIdx] = code
+			code = 1
+			codeIdx = len(ret)
+			if b == 0 || i < len(p)-1 {
+				ret = append(ret, 0)
+			}
+		}
+	}
+
+	if codeIdx < len(ret) {
+		ret[codeIdx] = code
+	}
+
+	return append(ret, 0)
+}
+
 // Read a COBS encoded data stream. The stream may optionally start with one or more NULL
 // bytes and must end with a NULL byte. This Read blocks until we
 // get an entire packet or an error. b must be large enough to hold the entire packet.
@@ -170,7 +203,7 @@ func (cw *CobsWrapper) Write(b []byte) (int, error) {
 		log.Println("SER TX RAW:", test.HexDump(b))
 	}
 
-	w := append([]byte{0}, cobs.Encode(b)...)
+	w := append([]byte{0}, cobsEncode(b)...)
 
 	if cw.debug >= 9 {
 		log.Println("SER TX COBS:", test.HexDump(w))
